@@ -380,6 +380,31 @@ def _uf(name, *sorts):
     return _MULF[k]
 
 
+_SK_CACHE = {}
+
+
+def _struct_key(a):
+    k = a.get_id()
+    r = _SK_CACHE.get(k)
+    if r is None:
+        head = a.decl().name() if z3.is_app(a) else "~"
+        r = _SK_CACHE[k] = (head, a.num_args() if z3.is_app(a) else 0, a.sexpr())
+        if len(_SK_CACHE) > 200000:
+            _SK_CACHE.clear()
+    return r
+
+
+def _mulf_factors(a):
+    """factors of an already abstracted product MULF(MULF(x, y), z) -> [x, y, z]"""
+    out = []
+    for c in a.children():
+        if z3.is_app(c) and c.decl().kind() == z3.Z3_OP_UNINTERPRETED and c.decl().name().startswith("MULF_") and c.sort() == a.sort():
+            out.extend(_mulf_factors(c))
+        else:
+            out.append(c)
+    return out
+
+
 def uf_abstract(t, cache=None):
     """replace nonlinear *, /, div, mod, ^ by uninterpreted functions (arguments in canonical order).
     Validity of the abstraction implies validity of the original formula."""
@@ -405,7 +430,18 @@ def uf_abstract(t, cache=None):
     r = None
     if k == z3.Z3_OP_MUL:
         nums = [a for a in args if isnum(a)]
-        rest = sorted([a for a in args if not isnum(a)], key=lambda a: a.get_id())
+        # canonical argument order by structure (head symbol, then text), not by AST id: ids are not stable under the
+        # substitution of a bound variable, so f(x) * g(x) inside a quantifier and f(c) * g(c) in the goal could be
+        # ordered differently and the instance would no longer be congruent to the goal's product
+        flat = []
+        for a in args:
+            if z3.is_app(a) and a.decl().kind() == z3.Z3_OP_UNINTERPRETED and a.decl().name().startswith("MULF_") and a.sort() == t.sort():
+                flat.extend(_mulf_factors(a))
+            else:
+                flat.append(a)
+        args = flat
+        nums = [a for a in args if isnum(a)]
+        rest = sorted([a for a in args if not isnum(a)], key=_struct_key)
         if len(rest) >= 2:
             srt = t.sort()
             acc = rest[0]
